@@ -37,14 +37,14 @@ const (
 )
 
 type resLine struct {
-	T     string   `json:"t"`
-	Key   string   `json:"key,omitempty"`
-	What  string   `json:"what,omitempty"`
-	Entry string   `json:"entry,omitempty"`
-	Class string   `json:"class,omitempty"`
-	Input string   `json:"input,omitempty"`
-	Evals int64    `json:"evals,omitempty"`
-	NT    []string `json:"nt,omitempty"`
+	T     string           `json:"t"`
+	Key   string           `json:"key,omitempty"`
+	What  string           `json:"what,omitempty"`
+	Entry string           `json:"entry,omitempty"`
+	Class string           `json:"class,omitempty"`
+	Input string           `json:"input,omitempty"`
+	Evals int64            `json:"evals,omitempty"`
+	NT    []string         `json:"nt,omitempty"`
 	Per   map[string]int64 `json:"per,omitempty"`
 }
 
@@ -69,7 +69,7 @@ func worker(idx int, thorough bool, seed int64, work string, skipEntry, skipOrd 
 	}
 	var seq atomic.Int64
 	var seqStartCPU atomic.Uint64 // float bits *1000
-	go func() { // watchdog on CPU time inside one call
+	go func() {                   // watchdog on CPU time inside one call
 		last := int64(-1)
 		for {
 			time.Sleep(200 * time.Millisecond)
@@ -104,7 +104,8 @@ func worker(idx int, thorough bool, seed int64, work string, skipEntry, skipOrd 
 		journal.WriteAt(jbuf, 0)
 		seqStartCPU.Store(uint64(cpuSeconds() * 1000))
 		seq.Add(1)
-		arg := append([]byte{}, in...) // decoders may keep or scribble on the slice
+		arg := make([]byte, len(in)) // exact capacity: a decoder slicing past len must panic, not read slack
+		copy(arg, in)
 		metrics.Read(sample)
 		a0 := sample[0].Value.Uint64()
 		p, pv, st := mon.Guard(func() { e.Call(arg) })
@@ -123,7 +124,8 @@ func worker(idx int, thorough bool, seed int64, work string, skipEntry, skipOrd 
 		if alloc > uint64(allocBase+allocPerB*len(in)) {
 			// confirm with an exact measurement
 			var m0, m1 runtime.MemStats
-			arg2 := append([]byte{}, in...)
+			arg2 := make([]byte, len(in))
+			copy(arg2, in)
 			runtime.ReadMemStats(&m0)
 			mon.Guard(func() { e.Call(arg2) })
 			runtime.ReadMemStats(&m1)
@@ -285,7 +287,9 @@ func main() {
 				}
 				e := entries[ei]
 				cs := map[string]any{"entry": e.Name, "class": class, "input": hex.EncodeToString(in), "stderr": tail}
+				stuck := false
 				if _, err := os.Stat(filepath.Join(work, fmt.Sprintf("c07.stuck.%d", idx))); err == nil {
+					stuck = true
 					// replay alone in a fresh child before reporting
 					exit2, _ := runChild(bin, work, 100+idx, []string{fmt.Sprintf("VERIF_C07_WORKER=%d", 100+idx), "VERIF_C07_SINGLE=" + e.Name + " " + hex.EncodeToString(in), "VERIF_WORK=" + work})
 					if exit2 == 3 {
@@ -301,6 +305,11 @@ func main() {
 					r.Violation("fatal:"+e.Name+":"+strings.ReplaceAll(strings.TrimPrefix(first, "fatal error: "), " ", "-"), fmt.Sprintf("%s killed the process on a %d-byte input (%s): %s", e.Name, len(in), class, first), cs)
 				}
 				skipE, skipO = ei, ord
+				if stuck {
+					// one witness of non-termination per entry point is enough: the rest of its
+					// neighbourhood would cost the CPU bound again for every input that loops
+					skipO = int(^uint(0) >> 1)
+				}
 			}
 			r.Inconclusive(fmt.Sprintf("worker %d restarted too often", idx))
 		}(idx)
